@@ -11,6 +11,7 @@
 #include <sys/socket.h>
 
 #include "vproxy.h"
+#include "colvarscript.h"
 #include "colvar.h"
 #include "colvarbias.h"
 
@@ -370,6 +371,11 @@ int vproxy::run_force_callback()
       f[0] = p.second;
     }
     cv->add_bias_force(f);
+  }
+  for (auto &args : force_scripts) {
+    std::vector<unsigned char *> objv;
+    for (auto &a : args) objv.push_back((unsigned char *)a.c_str());
+    if (run_colvarscript_command((int)objv.size(), objv.data()) != COLVARS_OK) return COLVARS_ERROR;
   }
   return COLVARS_OK;
 }
